@@ -37,7 +37,7 @@ class Gen:
         self.order = ["g"]
         self.txdef = {}            # tx name -> op (for copies)
         self.n = 0
-        self.opts = dict(p_tx=0.7, max_tx=3, p_copy=0.0, p_same_cb=0.0, p_fork=0.4, p_unusual=0.15, max_height=None, zero_rewards=False, p_deep_fork=0.0, deep_min=11, p_sibling=0.0, c05_extra_tags=None, p_big_block=0.0,
+        self.opts = dict(p_tx=0.7, max_tx=3, p_copy=0.0, p_same_cb=0.0, p_fork=0.4, p_unusual=0.15, max_height=None, zero_rewards=False, p_deep_fork=0.0, deep_min=11, p_sibling=0.0, c05_extra_tags=None, p_big_block=0.0, p_extend_side=0.0,
                          prefix="", dts=None)
         self.opts.update(opts)
 
@@ -62,6 +62,12 @@ class Gen:
             if deep:
                 self.deep_forks = getattr(self, "deep_forks", 0) + 1
                 return self.r.choice(deep)
+        if self.opts.get("p_extend_side") and self.r.random() < self.opts["p_extend_side"]:
+            # keep ONE side branch growing next to the best chain: it gets long (crosses retarget heights, outlives its fork point
+            # by more than an interval) without ever becoming the head
+            side = [t for t in self.tips() if t is not best and t.height < best.height]
+            if side:
+                return max(side, key=lambda t: (t.height, -t.seq))
         if self.opts.get("p_sibling") and best.parent is not None and self.r.random() < self.opts["p_sibling"]:
             # a competitor of the best block itself (same height): keeps same-height pairs coming all the way up a long history
             par = best.parent if not isinstance(best.parent, str) else self.L.get(best.parent)
